@@ -34,6 +34,8 @@ type c18Case struct {
 	ReadBuf   int    `json:"read_buffer_bytes,omitempty"` // size of the caller-supplied read buffer (frame)
 	Second    bool   `json:"second_socket,omitempty"`     // sent through a client opened while another one is open
 	NoRequest bool   `json:"flags_without_nlm_f_request,omitempty"`
+	PresetLen uint32 `json:"caller_header_len,omitempty"`
+	PresetSeq uint32 `json:"caller_header_seq,omitempty"`
 }
 
 func rawParser(b []byte) ([]syscall.NetlinkMessage, error) {
@@ -66,6 +68,11 @@ func recvRetry(cl *libaudit.NetlinkClient) ([]syscall.NetlinkMessage, error) {
 // c18Frame sends one request on a NETLINK_ROUTE client and checks the kernel's verbatim echo.
 func c18Frame(c *mon.Ctx, cl *libaudit.NetlinkClient, k *c18Case, lastSeq *uint32) bool {
 	msg := syscall.NetlinkMessage{Header: syscall.NlMsghdr{Type: k.Type, Flags: k.Flags}, Data: k.Payload}
+	if k.PresetLen != 0 || k.PresetSeq != 0 {
+		// a message struct that was used before (forwarded, or re-used with another payload): whatever its
+		// length and sequence fields hold, Send computes the length and assigns the sequence number
+		msg.Header.Len, msg.Header.Seq = k.PresetLen, k.PresetSeq
+	}
 	seq, err := cl.Send(msg)
 	desc := fmt.Sprintf("type=%d flags=%#x payload=%d bytes", k.Type, k.Flags, len(k.Payload))
 	if err != nil {
@@ -462,6 +469,16 @@ func c18Run(c *mon.Ctx) {
 	for i := 0; i < c.Pick(1500, 60000); i++ {
 		cases = append(cases, &c18Case{Type: uint16(256 + r.Intn(65536-256)), Flags: uint16(r.Intn(65536)) | uapi.NlmFRequest, Payload: r.Bytes(r.Intn(300))})
 	}
+	// stale length / sequence fields in the caller's header
+	for i := 0; i < c.Pick(200, 4000); i++ {
+		n := r.Intn(120)
+		k := &c18Case{Type: uint16(256 + r.Intn(60000)), Flags: uapi.NlmFRequest | uint16(r.Intn(256))<<8, Payload: r.Bytes(n)}
+		k.PresetLen = mon.Pick(r, []uint32{1, 15, 16, 17, uint32(16 + n - 1), uint32(16 + n + 1), uint32(16 + n + 20), 4096, 1 << 31, 0xFFFFFFFF})
+		if r.Bool() {
+			k.PresetSeq = mon.Pick(r, []uint32{1, 7, 0xFFFFFFFF, r.Uint32() | 1})
+		}
+		cases = append(cases, k)
+	}
 	// flags WITHOUT NLM_F_REQUEST: the kernel does not process such a message but still acknowledges it when
 	// NLM_F_ACK is set, echoing the header it received (types stay outside 16..255 all the same)
 	for i := 0; i < c.Pick(300, 6000); i++ {
@@ -495,6 +512,9 @@ func c18Run(c *mon.Ctx) {
 		}
 		if k.NoRequest {
 			c.Add("frames_without_request_flag", 1)
+		}
+		if k.PresetLen != 0 {
+			c.Add("frames_with_stale_caller_length", 1)
 		}
 		c.Add("evaluations", 1)
 		c.Add("frames_echoed", 1)
